@@ -36,13 +36,17 @@ class C04(F.Check):
         ks = []
         self.inst = []
         self.finst = []
-        for ct in F.INT_REPS:
-            for i, (n, d) in enumerate(M.factor_grid(ct, self.tier, self.rng)):
+        for ct in F.INT_REPS + F.TWIN_INT_REPS:
+            grid = M.factor_grid(ct, self.tier, self.rng)
+            if ct in F.TWIN_INT_REPS and self.tier == "quick":
+                # distinct types of the same width as int64_t/uint64_t: a thinned grid that keeps the pure-integer multipliers and divisors
+                grid = [f for j, f in enumerate(grid) if j % 3 == 1 or (1 in f and max(f) in (3, 12, 1000))]
+            for i, (n, d) in enumerate(grid):
                 if not M.conversion_compiles(ct, n, d):
                     self.extra_cov["factors_outside_domain_by_model"] = self.extra_cov.get("factors_outside_domain_by_model", 0) + 1
                     continue
                 u1, u2 = mag_unit(n), mag_unit(d)
-                tag = "%s_%d" % (ct.replace("_t", ""), i)
+                tag = "%s_%d" % (ct.replace("_t", "").replace(" ", ""), i)
                 key = {"rep": ct, "N": n, "D": d}
                 q = "make_quantity<%s>(x)" % u1
                 names = {}
